@@ -674,6 +674,7 @@ func runStress(p StressParams, scratch string, idx int) *StressResult {
 		res.Compactions = e.StoreStat("total_compactions") + e.StoreStat("total_compactions_partial")
 	}
 	res.TraceSig = e.D.TraceSignature(64)
+
 	// final state: everything visible
 	if res.Violation == "" {
 		snap, err := coll.Snapshot()
